@@ -389,4 +389,4 @@ def run_waitack(run, P):
         ctx = solve(f, Env({'mc': (), 'po': ()}), on_event, None, keys, R,
                     key_fn=lambda e: (e.ts.get('mc'), e.ts.get('po'), tuple(e.intf(a)[:2] for a in sorted(typeaps))), max_envs=512)
         run.stats['waitack_solver_steps'] += ctx.steps
-    run.require(n >= 3 or run.fixture_mode, 'R-RETRANS: fewer than 3 call sites of coap_wait_ack() found')
+    run.require(n >= (3 if run.cfg == 'base' else 2) or run.fixture_mode, 'R-RETRANS: fewer than 3 (base) / 2 (reduced configurations) call sites of coap_wait_ack() found')
